@@ -26,6 +26,7 @@
 From Coq Require Import Floats.
 From GenqlV Require Import Base.Prelude Base.Value.
 Local Open Scope string_scope.
+Local Open Scope list_scope.
 
 (* ------------------------------------------------------------------ *)
 (* Queries                                                              *)
@@ -189,7 +190,7 @@ Inductive prog :=
 
 Definition prog_acts (p : prog) : list action :=
   match p with
-  | PFail bs partial => flatten_from 1 bs ++ map (lift (S (length bs))) partial
+  | PFail bs partial => flatten_from 1 bs ++ map (lift (S (List.length bs))) partial
   | PPost bs _ => flatten_from 1 bs
   end.
 Definition prog_fin (p : prog) : fin :=
@@ -283,7 +284,7 @@ Definition main_step (e : fin) (s : st) : st :=
         end
     | [] =>
         match e with
-        | FinFail => mkSt (m_done s) [] Finished (Some Err) (wgs s) (ws s) (log s) (rep s)
+        | FinFail => mkSt (m_done s) [] (m_phase s) (Some Err) (wgs s) (ws s) (log s) (rep s)
         | FinPost t =>
             match m_phase s with
             | Running =>
@@ -373,7 +374,7 @@ Definition eval_arg (r : row) (a : arg) : value :=
   end.
 
 Definition nspawn (l : list mact) : nat :=
-  length (flat_map (fun a => match a with MSpawn _ _ => [tt] | _ => [] end) l).
+  List.length (flat_map (fun a => match a with MSpawn _ _ => [tt] | _ => [] end) l).
 
 (* FunExpr + the AliasedExpr case of SelectExpr for one item.
    Result: the actions performed, and None when an error is returned, otherwise the column
@@ -454,7 +455,7 @@ Arguments ro_partial {A}.
 Arguments ro_val {A}.
 
 Definition nworkers (bs : list block) : nat :=
-  length (spawned (flatten_from 1 bs)).   (* the group ids do not matter for the count *)
+  List.length (spawned (flatten_from 1 bs)).   (* the group ids do not matter for the count *)
 
 Definition block_workers (b : block) : nat :=
   match b with BRoot a => nspawn [a] | BSub l => S (nspawn l) end.
